@@ -143,3 +143,17 @@ Section Guards.
     defbound_eqb (td_bound (d_array std)) (FromParams [1]) && defbound_eqb (td_bound (d_list std)) (FromParams [0]) &&
     defbound_eqb (td_bound (d_static std)) (Explicit Copyable).
 End Guards.
+
+(* ---- histories on one Const node (written without looking at run_hist) ----
+   the value held at the moment of each observation: the last one set before it *)
+Fixpoint held_at (cur : vexpr) (steps : list hstep) : list vexpr :=
+  match steps with
+  | [] => []
+  | HObs :: r => cur :: held_at cur r
+  | HSet e :: r => held_at e r
+  end.
+(* what the property promises of one observation of a node that holds e at that moment: the reported type is
+   inhabited by the serial form, is what the static port offers and what a LoadConstant built now produces *)
+Definition obs_ok (std : stddefs) (e : vexpr) (o : hobs) : Prop :=
+  wf_expr std e = true -> forall t s, ho_type o = Some t -> ho_ser o = Some s ->
+  has_type std s t /\ ho_port o = Some t /\ ho_load o = Some ([], [t]).
